@@ -1313,7 +1313,7 @@ class Glyph(BaseObject):
         """
         (x, y) = coordinates
         from fontTools.pens.pointInsidePen import PointInsidePen
-        pen = PointInsidePen(glyphSet=None, testPoint=(x, y), evenOdd=evenOdd)
+        pen = PointInsidePen(glyphSet=self.layer, testPoint=(x, y), evenOdd=evenOdd)
         self.draw(pen)
         return pen.getResult()
 
